@@ -21,9 +21,6 @@ namespace Pandora.Model.C07
 /-- `bufio.MaxScanTokenSize` -/
 def maxTok : Nat := 65536
 
-/-- the largest size for which the model predicts `make([]byte, n)` + `io.ReadFull` -/
-def maxAlloc : Nat := 67108864
-
 def dropCR (s : Bytes) : Bytes :=
   match s.getLast? with
   | some 13 => s.dropLast
@@ -117,7 +114,6 @@ def uripostPass (fixed : Bool) (bs : Bytes) (h : Hdrs) : List Ammo × Stop :=
           | .error e => ([], .err e)
           | .ok (n, uri, tag) =>
             if n < 0 then ([], .err .panic)          -- make([]byte, n) with n < 0
-            else if maxAlloc < n.toNat then ([], .unknown)
             else if p.2.1.length < n.toNat then ([], .err .shortread)   -- io.ReadFull fails
             else
               let q := uripostPass fixed (p.2.1.drop n.toNat) h
@@ -161,7 +157,6 @@ def rawPass (bs : Bytes) : List RawAmmo × Stop :=
           else if n = 0 then
             let q := rawPass p.2.1
             ({ frame := [], tag := [] } :: q.1, q.2)
-          else if maxAlloc < n.toNat then ([], .unknown)
           else if p.2.1.length < n.toNat then ([], .err .shortread)
           else
             let q := rawPass (p.2.1.drop n.toNat)
